@@ -29,7 +29,7 @@ structure Same (s s' : PState) : Prop where
   cfg : s'.cfg = s.cfg
   stack : s'.flagsStack = s.flagsStack
   loopLayer : s'.loopLayer = s.loopLayer
-  blockDepth : s'.blockDepth = s.blockDepth
+  opens : s'.opens = s.opens
   loopInfo : s'.loopInfo = s.loopInfo
   trace : s'.trace = s.trace
   switched : s'.switched = s.switched
@@ -38,7 +38,7 @@ structure Same (s s' : PState) : Prop where
 theorem Same.rfl' (s : PState) : Same s s := ⟨rfl, rfl, rfl, rfl, rfl, rfl, rfl, rfl⟩
 
 theorem Same.trans {a b c : PState} (h1 : Same a b) (h2 : Same b c) : Same a c :=
-  ⟨h2.cfg.trans h1.cfg, h2.stack.trans h1.stack, h2.loopLayer.trans h1.loopLayer, h2.blockDepth.trans h1.blockDepth,
+  ⟨h2.cfg.trans h1.cfg, h2.stack.trans h1.stack, h2.loopLayer.trans h1.loopLayer, h2.opens.trans h1.opens,
    h2.loopInfo.trans h1.loopInfo, h2.trace.trans h1.trace, h2.switched.trans h1.switched, h2.skip.trans h1.skip⟩
 
 theorem addErr_same (env : Env) : ∀ (l : List Eff) (s : PState), l.all isAddErr = true → Same s (l.foldl (runEff env) s)
@@ -142,17 +142,17 @@ theorem skip_pure (env : Env) (hrules : ∀ i, i < env.rules.size → skipOK env
         simp only [skipOK] at hc
         simp only [parseNode]
         have := ihE e' hc { s with skip := s.skip + 1 } (by simp only; omega)
-        exact ⟨this.cfg, this.stack, this.loopLayer, this.blockDepth, this.loopInfo, this.trace, this.switched, by simp only; rw [this.skip]; simp⟩
+        exact ⟨this.cfg, this.stack, this.loopLayer, this.opens, this.loopInfo, this.trace, this.switched, by simp only; rw [this.skip]; simp⟩
       | andLogical i e' =>
         simp only [skipOK] at hc
         simp only [parseNode]
         have := ihE e' hc { s with skip := s.skip + 1 } (by simp only; omega)
-        exact ⟨this.cfg, this.stack, this.loopLayer, this.blockDepth, this.loopInfo, this.trace, this.switched, by simp only; rw [this.skip]; simp⟩
+        exact ⟨this.cfg, this.stack, this.loopLayer, this.opens, this.loopInfo, this.trace, this.switched, by simp only; rw [this.skip]; simp⟩
       | not_ i e' =>
         simp only [skipOK] at hc
         simp only [parseNode]
         have := ihE e' hc { s with skip := s.skip + 1 } (by simp only; omega)
-        exact ⟨this.cfg, this.stack, this.loopLayer, this.blockDepth, this.loopInfo, this.trace, this.switched, by simp only; rw [this.skip]; simp⟩
+        exact ⟨this.cfg, this.stack, this.loopLayer, this.opens, this.loopInfo, this.trace, this.switched, by simp only; rw [this.skip]; simp⟩
       | any i =>
         simp only [parseNode]
         split
